@@ -298,6 +298,36 @@ impl Drop for Path {
     }
 }
 
+/// Read-only view of a path's validation state for the verification harness
+/// (compiled only with `--cfg genmeta_gm_quic_verif`).
+#[cfg(genmeta_gm_quic_verif)]
+#[derive(Debug, Clone)]
+pub struct VerifPathState {
+    /// the path has been marked validated
+    pub validated: bool,
+    /// what `AntiAmplifier::balance()` answers: `Ok(None)` unlimited, `Ok(Some(n))` n bytes of credit,
+    /// `Err(signals)` no credit (the signals to wait for)
+    pub balance: Result<Option<usize>, qbase::net::tx::Signals>,
+    /// the PATH_CHALLENGE waiting to be sent, if any
+    pub pending_challenge: Option<PathChallengeFrame>,
+}
+
+#[cfg(genmeta_gm_quic_verif)]
+impl Path {
+    pub fn verif_state(&self) -> VerifPathState {
+        VerifPathState {
+            validated: self.validated.load(Ordering::Acquire),
+            balance: self.anti_amplifier.balance(),
+            pending_challenge: self.challenge_sndbuf.verif_peek(),
+        }
+    }
+
+    /// the waker the path's send task sleeps on
+    pub fn verif_tx_waker(&self) -> ArcSendWaker {
+        self.tx_waker.clone()
+    }
+}
+
 impl ReceiveFrame<PathChallengeFrame> for Path {
     type Output = ();
 
